@@ -29,6 +29,8 @@ def random_graph_model(rng, quotes=False, max_classes=6, max_methods=25, dense=F
     unresolved callees, receiver-less calls, constructor calls, overloaded (same-name) methods"""
     ncls = rng.randint(1, max_classes)
     pkgs = ["p", "p.q", "com.x"][:rng.randint(1, 3)]
+    if rng.random() < 0.3:
+        pkgs.append("")          # classes of the default package: full names are ".Class.method"
     classes = []
     used = set()
     for i in range(ncls):
